@@ -32,7 +32,7 @@ for p in props:
             "thorough_cmd": f"./check {pid} --tier thorough",
             "evidence_file": f"/verif/evidence/{pid}.json",
             "replay_cmd_template": f"./check {pid} --replay {{path}}",
-            "engine": "pyvc",
+            "engine": "pvc",
             "level_claimed": {"category": cat, "text": text, "design_ref": ref},
             "level_note": note,
             "technique": tech,
@@ -49,7 +49,7 @@ m = {
  "hooks": {"guard": "REDUN_VERIF", "enable": "no hooks: contracts are sidecar files under /verif/contracts; replay drivers monkey-patch inside their own process",
            "baseline_off_cmd": "cd /repo && /venv/bin/python -m pytest -ra -q -p no:cacheprovider --timeout=900 --continue-on-collection-errors",
            "source_commits": [], "add_only": True},
- "engines": [{"name": "pyvc", "path": "/verif/pyvc", "serves_properties": sorted(CLAIMS),
+ "engines": [{"name": "pvc", "path": "/verif/pvc", "serves_properties": sorted(CLAIMS),
               "kind_free_text": "home-made deductive verifier: symbolic execution of the real Python AST (re-read from /repo on every run) under sidecar contracts; obligations as SMT-LIB, discharged by z3 5.1 and cvc5 1.0.3; two-stage quantifier treatment; replay drivers run the real code under /venv/bin/python"}],
  "checks": checks,
  "not_applicable": na,
